@@ -265,6 +265,7 @@ class Engine:
         self.ctrl = {}          # (frame_key, merge block) -> switch discriminant terms deciding which edge reaches it
         self.cur = None         # (frame, block) being executed
         self.param_writes = {}  # (frame_key, block, loc, path) -> fn name : writes into root-parameter pointees
+        self.executed = set()   # (fn name, block) executed in some frame (blocks never executed are infeasible in context)
         self.n_frames = 0
         self.n_block_execs = 0
 
@@ -662,6 +663,7 @@ class Engine:
         fn = frame.fn
         blk = fn.blocks[b]
         self.cur = (frame, b)
+        self.executed.add((fn.name, b))
         for si, s in enumerate(blk["s"]):
             if "l" in s:
                 v = self.rvalue(state, frame, s["r"], (b, si), s)
